@@ -4,6 +4,7 @@
 use std::collections::HashMap;
 
 use proptest::prelude::*;
+use serde::{Deserialize, Serialize};
 
 use crate::{
     core::{CaseResult, Property, RandomPart, Tier},
@@ -161,6 +162,15 @@ pub fn judge(script: &Script, obs: &Observation) -> CaseResult {
             return r;
         }
     }
+    // E8: whatever the reason, once a caller has been told that the connection itself failed the
+    // client must not go on as if nothing had happened
+    if let (true, Some(false)) = (any_protocol, obs.is_closed) {
+        r.fail(format!(
+            "E8: a caller was told that the connection failed ({}) but a retained client handle still reports the connection open",
+            short(&obs.requests.iter().map(|(_, _, s, _)| s).collect::<Vec<_>>())
+        ));
+        return r;
+    }
     // E5
     let closed: Vec<usize> = obs.events.iter().enumerate().filter(|(_, e)| matches!(e, Ev::Closed(_))).map(|(i, _)| i).collect();
     if closed.len() > 1 {
@@ -285,6 +295,50 @@ fn offsets_part() -> Box<dyn crate::core::Part> {
     })
 }
 
+/// A fault-free session in which one reply contains a single enormous line.
+#[derive(Debug, Clone, Serialize, Deserialize)]
+pub struct Giant {
+    pub line_bytes: usize,
+    pub chunk: usize,
+}
+
+fn giant_part() -> Box<dyn crate::core::Part> {
+    Box::new(crate::core::ExhaustivePart {
+        name: "giant_reply",
+        rule: "fault-free session: a request whose reply holds one value of 1.25 MiB / 20 MiB (thorough: + 40 MiB, 80 MiB), then a small request; server output readable at once or in 60000-byte pieces. Both callers must get their replies (C01's judge) and E1-E8 must hold (in particular: nobody is told the connection failed while the client carries on)",
+        space: Box::new(|t: Tier| {
+            let mut sizes = vec![(1usize << 20) * 5 / 4, (16 << 20) * 5 / 4];
+            if t == Tier::Thorough {
+                sizes.extend([(32 << 20) * 5 / 4, (64 << 20) * 5 / 4]);
+            }
+            Box::new(sizes.into_iter().flat_map(|line_bytes| [0usize, 60_000].into_iter().map(move |chunk| Giant { line_bytes, chunk })))
+        }),
+        check: Box::new(|g: &Giant| {
+            let mut s = Script::new(vec![
+                Step::Issue { caller: 0, req: sim::Req::Raw("r0x0".into()) },
+                Step::Issue { caller: 1, req: sim::Req::Raw("r1x0".into()) },
+            ]);
+            s.replies = vec![
+                ("r0x0".to_string(), ReplySpec::Ok { fields: vec![("big".to_string(), "v".repeat(g.line_bytes))], binary: None }),
+                ("r1x0".to_string(), ReplySpec::Ok { fields: vec![], binary: None }),
+            ];
+            if g.chunk > 0 {
+                s.seg = sim::SegPattern::Chunk(g.chunk);
+            }
+            let obs = sim::run(&s);
+            let j = crate::props::simprops::judge_c01(&s, &obs);
+            if j.failed() {
+                return j;
+            }
+            let mut r = judge(&s, &obs);
+            r.nontrivial();
+            r.classes.clear();
+            r.class(if g.line_bytes > (16 << 20) { "line_over_16MiB" } else { "line_up_to_16MiB" });
+            r
+        }),
+    })
+}
+
 pub fn property(_tier: Tier) -> Property {
     Property {
         id: "C08",
@@ -292,7 +346,7 @@ pub fn property(_tier: Tier) -> Property {
         parts: vec![
             Box::new(RandomPart {
                 name: "one_fault",
-                rule: "proptest: history of C01's shape (0-10 steps/blocks), then 0-4 requests issued (optionally with reply bytes on hold), then exactly one fault - peer closes now / after k more bytes (0-6000) / read error after k bytes / the n-th next write fails / a definitely malformed line is injected - or every client handle is dropped (optionally the event receiver first); then 0-4 later requests/advances; writes after a peer close fail with BrokenPipe or succeed silently. Judged by E1 every request resolves (virtual 1 h bound), E2 completely received reply => that reply, E3 otherwise ConnectionClosed/Protocol, E4 is_connection_closed, E5 event stream ends, at most one closing event and it is last, E6 non-clean failure surfaced (strictly: to the caller whose reply was partly delivered), E7 transport released after the last handle is gone, no closing event without a failure. non-trivial = fault struck with a request pending / inside a response, or handles dropped with requests issued",
+                rule: "proptest: history of C01's shape (0-10 steps/blocks), then 0-4 requests issued (optionally with reply bytes on hold), then exactly one fault - peer closes now / after k more bytes (0-6000) / read error after k bytes / the n-th next write fails / a definitely malformed line is injected - or every client handle is dropped (optionally the event receiver first); then 0-4 later requests/advances; writes after a peer close fail with BrokenPipe or succeed silently. Judged by E1 every request resolves (virtual 1 h bound), E2 completely received reply => that reply, E3 otherwise ConnectionClosed/Protocol, E4 is_connection_closed, E5 event stream ends, at most one closing event and it is last, E6 non-clean failure surfaced (strictly: to the caller whose reply was partly delivered), E7 transport released after the last handle is gone, no closing event without a failure, E8 a caller told that the connection failed => the client reports itself closed. non-trivial = fault struck with a request pending / inside a response, or handles dropped with requests issued",
                 cases: (60_000, 3_000_000),
                 strategy: Box::new(|_t| simgen::faulty_script().boxed()),
                 check: Box::new(|s: &Script| {
@@ -301,6 +355,7 @@ pub fn property(_tier: Tier) -> Property {
                 }),
             }),
             offsets_part(),
+            giant_part(),
             crate::fuzzops::corpus_part("fuzz_corpus", "fz_sim", "C08", crate::fuzzops::sim_target),
         ],
         assumptions: vec![
